@@ -53,7 +53,7 @@ def gen(rng, tier):
     r = rng.random()
     if r < 0.72:
       target = rng.choice(['probe', 'probe', 'probe', 'method', 'bare_method',
-                           'unregistered'])
+                           'unregistered', 'klass'])
       spec = rng.choice(specs)
       uid[0] += 1
       if target == 'probe':
@@ -71,6 +71,9 @@ def gen(rng, tier):
       elif target == 'method':
         param = rng.choice(['ma', 'mb', 'nope'])
         sel_full = 'mm.K.meth'
+      elif target == 'klass':
+        param = rng.choice(['ka', 'kb', 'nope'])
+        sel_full = 'mm.K'
       elif target == 'bare_method':
         param = 'ma'
         sel_full = 'meth'
@@ -82,6 +85,8 @@ def gen(rng, tier):
           if target in ('probe',) else sel_full
       if target == 'method':
         sel = rng.choice(['mm.K.meth', 'K.meth'])
+      if target == 'klass':
+        sel = rng.choice(['mm.K', 'K'])
       ops.append({'op': 'attempt', 'target': target, 'probe': spec['name'],
                   'sel': sel, 'param': param, 'val': 'v%d' % uid[0],
                   'api': rng.choice(APIS), 'scope': rng.choice(['sa', 'sa/sb'])})
@@ -92,6 +97,10 @@ def gen(rng, tier):
       new['api'] = 'configurable'
       ops.append({'op': 'reregister', 'probe': spec['name'], 'spec': new,
                   'interactive': rng.random() < 0.8})
+    elif r < 0.84:
+      # a dynamic-registration text configures a not yet registered method of the
+      # (statically registered, denylisted) class K, which re-registers K
+      ops.append({'op': 'dyn_touch', 'val': uid[0]})
     elif r < 0.86:
       # a registration rejected for its list, after which the function object is
       # dropped (and its memory reused by whatever is created next)
@@ -120,10 +129,12 @@ def gen(rng, tier):
 K_SRC = '''
 class K:
   """Class with a registered method."""
-  def __init__(self, ka=0):
-    self.ka = ka
+  def __init__(self, ka=0, kb=0):
+    self.ka, self.kb = ka, kb
   def meth(self, ma=1, mb=2):
     return _hook('K.meth', {'ma': ma, 'mb': mb}, (), {}, self)
+  def meth2(self, m2=3):
+    return _hook('K.meth2', {'m2': m2}, (), {}, self)
 '''
 
 
@@ -162,8 +173,10 @@ def run(case):
   K.__module__ = 'ginsim_probes'
   # the method has its own denylist, which must survive its re-homing under K
   K.meth = gin.register(denylist=['mb'])(K.meth)
-  gin.register(module='mm')(K)
+  # the class itself is registered with a denylist
+  gin.register(module='mm', denylist=['kb'])(K)
   KC = gin.get_configurable(K)
+  probes.plant_module('vmod_c11', {'K': K})
 
   def snapshot():
     cfg = getattr(world.config, '_CONFIG', None)
@@ -195,6 +208,8 @@ def run(case):
       return cm.configurable_param(spec, op['param']), full
     if t == 'method':
       return op['param'] == 'ma', 'mm.K.meth'
+    if t == 'klass':
+      return op['param'] == 'ka', 'mm.K'
     return False, None
 
   def do_attempt(op):
@@ -258,6 +273,16 @@ def run(case):
             v('C11.rejection_atomic', [op['api']],
               '%s raised %s but changed the configuration:\n before %r\n after  '
               '%r' % (what, type(exc).__name__, before, after))
+    elif k == 'dyn_touch':
+      try:
+        gin.parse_config(['from __gin__ import dynamic_registration',
+                          'import vmod_c11',
+                          'vmod_c11.K.meth2.m2 = %d' % op['val']])
+      except Exception as e:  # pylint: disable=broad-except
+        v('C11.valid_accepted', ['dynamic-method', type(e).__name__],
+          'configuring K.meth2 through dynamic registration raised %s: %s' %
+          (type(e).__name__, probes.scrub(str(e))[:300]))
+      log.add('dyn_touch', op['val'])
     elif k == 'ghost':
       import gc
       g2 = {}
